@@ -19,7 +19,7 @@ def sh(cmd, cwd=None, timeout=3600):
 
 
 def confirm(prop, ab, feats):
-    src = "/tmp/mut/out/%s" % prop
+    src = os.path.join(os.environ.get("SEED_SRC", "/tmp/mut/out"), prop)
     wt = "/tmp/seedwt-%s-%s" % (prop, ab)
     sh("git -C %s worktree remove --force %s" % (REPO, wt))
     rc, out = sh("git -C %s worktree add --detach %s HEAD" % (REPO, wt))
